@@ -105,6 +105,16 @@ fn handle(line: &str) -> Result<String, String> {
             };
             Ok(format!("W={w} G0={} G1={g1}", dump_game(&g0)))
         }
+        "ucimoves" => {
+            let text = f[1..].join("\t");
+            match crate::engine::uci::parser::uci_moves(&text) {
+                Ok((rest, moves)) => {
+                    let ms: Vec<String> = moves.iter().map(|m| m.notation()).collect();
+                    Ok(format!("ok [{}] rest=[{}]", ms.join(" "), rest.replace('\t', "<TAB>")))
+                }
+                Err(_) => Ok("err".to_string()),
+            }
+        }
         "tt" => crate::cmds2::tt(&f),
         "limits" => crate::cmds2::limits(&f),
         "evalpair" => crate::cmds2::evalpair(&f),
